@@ -24,6 +24,10 @@ P = {
  "C07": ("The accounting decision procedure Layout.accounted is proved sound for every decoded view (yes => ids in [2,mark) are partitioned into reachable-once / freelist page / free-once); "
          "it is evaluated by the extracted independent reader on the file bytes after every commit of generated histories, together with key order, element bounds, file length and Tx.Check.",
          "Decoder fuel 200 levels of nesting/depth; images are the page-cache view of the file.", "DESIGN.md §8 C07"),
+ "C08": ("Pager.v: for every sequence of frees and allocations of a transaction, Rollback+reload restores exactly the state its begin left (newest version, mark, readers, pending, free set, no writer) and the "
+         "invariant (exact accounting, reader pages protected) holds afterwards - for all histories. Tie: every I/O call index of the failing commit is failed once (error returned instead of the call), with and "
+         "without a reader held across; results, dumps, Tx.Check, decoder accounting, next writer and reopen compared with Spec.v.",
+         "Injected failures have no partial effect (the call is not performed). Known finding D5 (failed sync after the meta write with an older reader open). After a failed mmap ErrInvalidMapping from Begin counts as not blocking.", "DESIGN.md §8 C08"),
  "C09": ("Coq theorems (closed under the global context) about an executable model of internal/freelist for all states and ids without bound; the model is tied to the Go code on every run by "
          "differential execution against both backends, and the property's decision procedures are evaluated on the implementation's own before/after states.",
          "hashmap span choice and the reader set are inputs of the model.", "DESIGN.md §8 C09"),
